@@ -575,7 +575,7 @@ func (x *Exec) loopEnter(st *State, li *loopInfo, from *ssa.BasicBlock) {
 	dry := st.clone()
 	dry.dryWrites = map[string]bool{}
 	dry.dryFreshFrom = x.nfresh
-	dry.dryFnFresh = map[string]bool{}
+	dry.dryKinds = map[string]int{}
 	dry.inLoop[li.ord] = true
 	dry.curLoop = li.ord
 	dfr := dry.top()
@@ -605,15 +605,24 @@ func (x *Exec) loopEnter(st *State, li *loopInfo, from *ssa.BasicBlock) {
 		}
 		before := st.heapGet(name, s)
 		after := st.heapHavoc(name, s)
-		if !writes[name] {
-			// every write in the body goes to an object allocated in the body:
-			// objects that existed at loop entry are untouched
-			i := Term{"i!lf", SInt}
+		kinds := dry.dryKinds[name]
+		i := Term{"i!lf", SInt}
+		switch {
+		case kinds&wArbitrary != 0:
+			// no implicit frame
+		case kinds == wLoopFresh:
+			// every write in the body goes to an object allocated in the body
 			st.assume(Forall([]Term{i}, Implies(And(Ge(i, TZero), Le(i, st.alloc)), Eq(Select(after, i), Select(before, i)))))
-		} else if dry.dryFnFresh[name] {
+		case kinds&wCallee == 0:
 			// every write goes to an object allocated by this function
-			i := Term{"i!lf", SInt}
 			st.assume(Forall([]Term{i}, Implies(And(Ge(i, TZero), Le(i, x.entry.alloc)), Eq(Select(after, i), Select(before, i)))))
+		case kinds&wFnFresh == 0:
+			// only contracted callees rewrite the array: the caller's non-escaping locals are out of their reach
+			for _, lr := range st.localRefs {
+				if strings.HasPrefix(name, lr.prefix) {
+					st.assume(Eq(Select(after, lr.ref), Select(before, lr.ref)))
+				}
+			}
 		}
 	}
 	na := st.fresh("alloc", SInt)
@@ -626,7 +635,7 @@ func (x *Exec) loopEnter(st *State, li *loopInfo, from *ssa.BasicBlock) {
 		it.Visited = st.fresh("V", ArrSort(SBool))
 		it.Count = st.fresh("N", SInt)
 		st.assume(Ge(it.Count, TZero))
-		mn := regionOf(it.Map)
+		mn := st.region(it.Map)
 		if writes["mapdom:"+mn] {
 			it.MapWritten = true
 		}
